@@ -293,4 +293,67 @@ def valid (P : Prims) (a : Str) : Bool :=
   | .error _ => false
   | .ok (m, d) => if d.isEmpty then true else validMailboxName m && validDomain P d
 
+/-! ### every call as ONE total function with an explicit crash outcome (round 9)
+
+The Go functions are called by the SMTP and IMAP front ends with whatever a peer sends: none of them may
+panic. `Outcome` lists what a call of the real code can do (a Go panic included); `run` is the model of a
+call. The correspondence harness observes the real call under `recover` and prints `panic` for a crash, the
+driver prints `run`: `C17_no_panic` says the model never has that outcome, so a crash of the code is a
+divergence (and the monitor violation `C17/panic`). -/
+
+/-- one call of a function of `framework/address` / `framework/dns` -/
+inductive Call
+  | split (a : Str) | unquote (m : Str) | quote (m : Str) | isascii (s : Str) | validmbox (m : Str)
+  | toascii (a : Str) | tounicode (a : Str) | forlookup (a : Str) | cleandomain (a : Str) | valid (a : Str)
+  | dnsforlookup (d : Str) | dnstounicode (d : Str) | validdomain (d : Str)
+  | equal (a b : Str) | dnsequal (a b : Str)
+
+/-- what a call can do: a string (`QuoteMbox`), a truth value (`IsASCII`, `Valid…`, `Equal`), a string with or
+without an error (`(string, error)`: the string is meaningful on the error branch too), the two parts
+(`Split`), an error alone, or a crash -/
+inductive Outcome
+  | str (s : Str)
+  | flag (b : Bool)
+  | res (s : Str) (ok : Bool)
+  | parts (m d : Str)
+  | err
+  | panic
+  deriving DecidableEq
+
+def run (P : Prims) : Call → Outcome
+  | .split a => match split a with
+    | .ok (m, d) => .parts m d
+    | .error _ => .err
+  | .unquote m => match unquoteMbox m with
+    | .ok r => .res r true
+    | .error _ => .err
+  | .quote m => .str (quoteMbox m)
+  | .isascii s => .flag (isASCII s)
+  | .validmbox m => .flag (validMailboxName m)
+  | .toascii a => .res (toASCII P a).1 (toASCII P a).2
+  | .tounicode a => .res (toUnicode P a).1 (toUnicode P a).2
+  | .forlookup a => .res (forLookup P a).1 (forLookup P a).2
+  | .cleandomain a => .res (cleanDomain P a).1 (cleanDomain P a).2
+  | .valid a => .flag (valid P a)
+  | .dnsforlookup d => .res (dnsForLookup P d).1 (dnsForLookup P d).2
+  | .dnstounicode d => .res (dnsToUnicode P d).1 (dnsToUnicode P d).2
+  | .validdomain d => .flag (validDomain P d)
+  | .equal a b => .flag (equal P a b)
+  | .dnsequal a b => .flag (dnsEqual P a b)
+
+/-- the arguments of a call (what a replay needs) -/
+def Call.args : Call → List Str
+  | .split a | .unquote a | .quote a | .isascii a | .validmbox a | .toascii a | .tounicode a | .forlookup a
+  | .cleandomain a | .valid a | .dnsforlookup a | .dnstounicode a | .validdomain a => [a]
+  | .equal a b | .dnsequal a b => [a, b]
+
+/-- the same call on other arguments (byte-level ops: the arguments are decoded first) -/
+def Call.mapArgs (f : Str → Str) : Call → Call
+  | .split a => .split (f a) | .unquote a => .unquote (f a) | .quote a => .quote (f a)
+  | .isascii a => .isascii (f a) | .validmbox a => .validmbox (f a) | .toascii a => .toascii (f a)
+  | .tounicode a => .tounicode (f a) | .forlookup a => .forlookup (f a) | .cleandomain a => .cleandomain (f a)
+  | .valid a => .valid (f a) | .dnsforlookup a => .dnsforlookup (f a) | .dnstounicode a => .dnstounicode (f a)
+  | .validdomain a => .validdomain (f a)
+  | .equal a b => .equal (f a) (f b) | .dnsequal a b => .dnsequal (f a) (f b)
+
 end MaddyVerif.Address
